@@ -63,7 +63,7 @@ CHECKS = {
  "C19": ("exploration",
          "deterministic simulation: sessions of every kind over the real WebIdeState on a real sentinel directory tree with a simulated session clock; seeded operation histories with hostile path strings, symlinks, external modifications; full-tree snapshot diff + marker scan + version-chain refinement oracle (operation granularity) + the same lost-update scenario with sessions as threads under a seeded scheduler (C19B)",
          "Seeded search over histories of every path- or session-taking public operation of WebIdeState (list/tree/open/create/write/rename/delete/search/format/set_active_project/browse/analysis requests/rename_symbol) issued by editor, viewer, expired (clock seam H6b), bogus-token and write-disabled sessions with 16 hostile path classes against a project nested in a sentinel tree with hidden entries, outward/hidden/dangling/looping symlinks: after every operation a no-follow snapshot of the whole tree must show no change outside the active project or in hidden entries, no change at all for non-editor/expired/bogus/write-disabled requests, and no reply may contain a marker planted in outside or hidden files; for writes by several sessions the recorded history must refine the version chain (no acknowledged write on a superseded basis, acknowledged versions advance, refused writes change nothing, disk equals the last acknowledged write or a later external change). Sampling, not proof.",
-         "Trusts the snapshot/marker oracles and the version-chain model (DESIGN Appendix B). The command runs two checks: C19 (operation granularity, cfg A; evidence/C19.json) and C19B (editor sessions as scheduler-owned threads over the real state lock through hook H6a, engine B; evidence/C19B.json). The HTTP layer is not run.",
+         "Trusts the snapshot/marker oracles and the version-chain model (DESIGN Appendix B). The command runs two checks: C19 (operation granularity, cfg A; evidence/C19.json) and C19B (editor sessions as scheduler-owned threads over the real state lock through hook H6a, engine B; its record is merged into evidence/C19.json under coverage.further_checks.C19B). The HTTP layer is not run.",
          "DESIGN.md section 4 C19"),
  "C14": ("exploration",
          "deterministic simulation: simulated editor (UTF-16 reference buffer) vs the real language server over an in-process transport; seeded change-notification histories; lock-step text equality, position round trips, twin-server and ASCII-projection-server answer comparison",
